@@ -1,5 +1,6 @@
 """C03 — the clock is monotone and lands exactly on the requested end; run_for terminates."""
 from harness import sched_common as sc
+from harness import sched_prop
 from harness.sched_prop import install
 
 
@@ -70,3 +71,42 @@ install(globals(), 'C03', view, oracle,
         technique='Lean 4 termination + invariant proof over the scheduler loop; trace correspondence',
         required=['runFor_lands', 'runCalls_lands', 'iteration_progress', 'init_inv',
                   'quiet_jumps_to_end', 'engine_always_returns'])
+
+
+# ------------------------------------------------------------------------------------------------
+# float-grid family: with global_time_precision p the clock moves between grid points a·10^-p and
+# b·10^-p; for some pairs the float sum x + (y - x) is one ulp off y.  Every place where the engine
+# copies or compares times must use the rounded value.  The family drives the clock exactly through
+# such pairs, with an active process, a quiet process and a deferred one looking on.
+def _dangerous_pairs(unit, prec, limit=60):
+    out = []
+    for a in range(0, limit):
+        for b in range(a + 1, limit):
+            x, y = round(a * unit, prec), round(b * unit, prec)
+            if x + (y - x) != y:
+                out.append((a, b))
+    return out
+
+
+_PAIRS = {(0.1, 1): _dangerous_pairs(0.1, 1), (0.01, 2): _dangerous_pairs(0.01, 2)}
+
+
+def _grid_case(rng):
+    unit, prec = rng.choice([(0.1, 1), (0.1, 1), (0.01, 2)])
+    a, b = rng.choice(_PAIRS[(unit, prec)])
+    script = ([a] if a > 0 else []) + [b - a, rng.choice([1, 2, 3])]
+    procs = [sched_prop.P('p0', script),
+             sched_prop.P('p1', [1], cond={'script': [False]}),           # always quiet
+             sched_prop.P('p2', [rng.choice([1, 2, 5])], cond={'script': [rng.random() < 0.5, True]})]
+    if rng.random() < 0.5:
+        procs = procs[:2]
+    total = b + rng.choice([0, 1, 2, 3])
+    calls = [[total, True]] if rng.random() < 0.6 else [[max(1, a), False], [total - max(1, a) if total > max(1, a) else 1, True]]
+    return sched_prop.S(procs, calls, unit=unit, prec=prec)
+
+
+_generate0 = generate
+
+
+def generate(rng, n, tier):
+    return list(_generate0(rng, n, tier)) + [_grid_case(rng) for _ in range(max(6, n // 8))]
